@@ -207,7 +207,7 @@ struct Exporter {
 
     uint64_t maxi() const { return params[cur.set].storage_parameters.max_block_items; }
     bool full() const {
-        uint64_t M = maxi();
+        uint64_t M = maxi() ? maxi() : 1;   // "a maximum of 0 acting like 1"
         return cur.qr.size() >= M || cur.aec.size() >= M || cur.mm.size() >= M;
     }
     // returns true iff a block is written by this call (=> returned byte count must be non-zero)
@@ -218,9 +218,13 @@ struct Exporter {
         cur.set = active;
         return wrote;
     }
-    bool maybe_flush() { return full() ? write_block() : false; }
+    // With max_block_items == 0 the library calls write_block() after every buffer call, also on an empty block
+    // (which writes nothing but re-arms the active parameters); indistinguishable through the API, so mirrored here.
+    bool maybe_flush() { return (maxi() == 0 || full()) ? write_block() : false; }
 
-    bool buffer_qr(const CDNS::GenericQueryResponse& g, const CDNS::BlockStatistics* st) {
+    // Two-phase form: add_* puts the record into the pending block (returns false if the hints exclude the
+    // whole record class), maybe_flush() then writes the block if it is full. A faulted run may stop in between.
+    bool add_qr(const CDNS::GenericQueryResponse& g, const CDNS::BlockStatistics* st) {
         Hints h = Hints::of(params[cur.set]);
         MRec e = expect_qr(g, h, (h.qr >> 11) & 1);
         if (!e.empty()) {
@@ -229,22 +233,22 @@ struct Exporter {
             cur.qr_has_rq.push_back(g.response_questions && !g.response_questions->empty());
         }
         if (st) { cur.has_stats = true; cur.stats = to_mrec(*st); }
-        return maybe_flush();
+        return true;
     }
-    bool buffer_aec(const CDNS::GenericAddressEventCount& a, const CDNS::BlockStatistics* st) {
+    bool add_aec(const CDNS::GenericAddressEventCount& a, const CDNS::BlockStatistics* st) {
         Hints h = Hints::of(params[cur.set]);
         if (!(h.other & 2)) return false;
         cur.aec[ref::dump(to_mrec_key(a))]++;
         if (st) { cur.has_stats = true; cur.stats = to_mrec(*st); }
-        return maybe_flush();
+        return true;
     }
-    bool buffer_mm(const CDNS::GenericMalformedMessage& m, const CDNS::BlockStatistics* st) {
+    bool add_mm(const CDNS::GenericMalformedMessage& m, const CDNS::BlockStatistics* st) {
         Hints h = Hints::of(params[cur.set]);
         if (!(h.other & 1)) return false;
         MRec e = to_mrec(m);
         if (!e.empty()) cur.mm.push_back(e);
         if (st) { cur.has_stats = true; cur.stats = to_mrec(*st); }
-        return maybe_flush();
+        return true;
     }
 };
 
